@@ -515,3 +515,61 @@ impl<'a> MoveContext<'a> {
         MoveContext::Activity { solution_ctx, route_ctx, activity_ctx }
     }
 }
+
+/// Verification hooks (compiled only with `--cfg reinterpretcat_vrp_verif`): render the cached state,
+/// whose keys are private types, as comparable text.
+#[cfg(reinterpretcat_vrp_verif)]
+mod verif_hooks {
+    use super::*;
+    use crate::models::common::{MultiDimLoad, SingleDimLoad};
+
+    fn render(any: &(dyn Any + Send + Sync)) -> String {
+        if let Some(v) = any.downcast_ref::<Float>() {
+            return format!("f:{v:?}");
+        }
+        if let Some(v) = any.downcast_ref::<Vec<Float>>() {
+            return format!("vf:{v:?}");
+        }
+        if let Some(v) = any.downcast_ref::<usize>() {
+            return format!("u:{v}");
+        }
+        if let Some(v) = any.downcast_ref::<String>() {
+            return format!("s:{v}");
+        }
+        if let Some(v) = any.downcast_ref::<HashSet<String>>() {
+            let mut items = v.iter().cloned().collect::<Vec<_>>();
+            items.sort();
+            return format!("hs:{items:?}");
+        }
+        if let Some(v) = any.downcast_ref::<Vec<(usize, usize)>>() {
+            return format!("vuu:{v:?}");
+        }
+        if let Some(v) = any.downcast_ref::<Vec<SingleDimLoad>>() {
+            return format!("vl1:{:?}", v.iter().map(|l| l.value).collect::<Vec<_>>());
+        }
+        if let Some(v) = any.downcast_ref::<Vec<MultiDimLoad>>() {
+            return format!("vlm:{:?}", v.iter().map(|l| l.load[..l.size].to_vec()).collect::<Vec<_>>());
+        }
+        "opaque".to_string()
+    }
+
+    fn digest(index: &HashMap<TypeId, Arc<dyn Any + Send + Sync>, BuildHasherDefault<FxHasher>>) -> Vec<String> {
+        let mut items = index.values().map(|v| render(v.as_ref())).collect::<Vec<_>>();
+        items.sort();
+        items
+    }
+
+    impl RouteState {
+        /// Returns a sorted textual rendering of all cached values.
+        pub fn verif_digest(&self) -> Vec<String> {
+            digest(&self.index)
+        }
+    }
+
+    impl SolutionState {
+        /// Returns a sorted textual rendering of all cached values.
+        pub fn verif_digest(&self) -> Vec<String> {
+            digest(&self.index)
+        }
+    }
+}
